@@ -232,7 +232,10 @@ fn build_struct_json_body(struct_def: &StructDef, attr_ptr: &MySyntaxNodePtr) ->
         astptr: *attr_ptr,
     });
 
-    for (idx, (field_name, field_ty)) in struct_def.fields.iter().enumerate() {
+    let bindings = field_bindings(struct_def.fields.len());
+    for (idx, ((field_name, field_ty), binding)) in
+        struct_def.fields.iter().zip(bindings.iter()).enumerate()
+    {
         // Add comma before each field except the first
         if idx > 0 {
             parts.push(Expr::EString {
@@ -247,7 +250,7 @@ fn build_struct_json_body(struct_def: &StructDef, attr_ptr: &MySyntaxNodePtr) ->
         });
         // field value as JSON
         parts.push(call_to_json(
-            var_expr(field_name, attr_ptr),
+            var_expr(binding, attr_ptr),
             Some(field_ty),
             attr_ptr,
         ));
@@ -267,11 +270,12 @@ fn build_struct_json_body(struct_def: &StructDef, attr_ptr: &MySyntaxNodePtr) ->
                     fields: struct_def
                         .fields
                         .iter()
-                        .map(|(field_name, _)| {
+                        .zip(bindings.iter())
+                        .map(|((field_name, _), binding)| {
                             (
                                 field_name.clone(),
                                 Pat::PVar {
-                                    name: field_name.clone(),
+                                    name: binding.clone(),
                                     astptr: *attr_ptr,
                                 },
                             )
@@ -310,9 +314,7 @@ fn build_enum_json_body(enum_def: &EnumDef, attr_ptr: &MySyntaxNodePtr) -> Expr 
                     },
                 }
             } else {
-                let bindings: Vec<AstIdent> = (0..fields.len())
-                    .map(|idx| AstIdent::new(&format!("__field{}", idx)))
-                    .collect();
+                let bindings = field_bindings(fields.len());
                 let args = bindings
                     .iter()
                     .map(|binding| Pat::PVar {
@@ -377,13 +379,16 @@ fn build_struct_body(struct_def: &StructDef, attr_ptr: &MySyntaxNodePtr) -> Expr
         astptr: *attr_ptr,
     });
 
-    for (idx, (field_name, field_ty)) in struct_def.fields.iter().enumerate() {
+    let bindings = field_bindings(struct_def.fields.len());
+    for (idx, ((field_name, field_ty), binding)) in
+        struct_def.fields.iter().zip(bindings.iter()).enumerate()
+    {
         parts.push(Expr::EString {
             value: format!("{}: ", field_name.0),
             astptr: *attr_ptr,
         });
         parts.push(call_to_string(
-            var_expr(field_name, attr_ptr),
+            var_expr(binding, attr_ptr),
             Some(field_ty),
             attr_ptr,
         ));
@@ -409,11 +414,12 @@ fn build_struct_body(struct_def: &StructDef, attr_ptr: &MySyntaxNodePtr) -> Expr
                     fields: struct_def
                         .fields
                         .iter()
-                        .map(|(field_name, _)| {
+                        .zip(bindings.iter())
+                        .map(|((field_name, _), binding)| {
                             (
                                 field_name.clone(),
                                 Pat::PVar {
-                                    name: field_name.clone(),
+                                    name: binding.clone(),
                                     astptr: *attr_ptr,
                                 },
                             )
@@ -451,9 +457,7 @@ fn build_enum_body(enum_def: &EnumDef, attr_ptr: &MySyntaxNodePtr) -> Expr {
                     },
                 }
             } else {
-                let bindings: Vec<AstIdent> = (0..fields.len())
-                    .map(|idx| AstIdent::new(&format!("__field{}", idx)))
-                    .collect();
+                let bindings = field_bindings(fields.len());
                 let args = bindings
                     .iter()
                     .map(|binding| Pat::PVar {
@@ -500,6 +504,15 @@ fn build_enum_body(enum_def: &EnumDef, attr_ptr: &MySyntaxNodePtr) -> Expr {
         arms,
         astptr: *attr_ptr,
     }
+}
+
+/// Locals the generated bodies bind fields and payloads to. They start with an underscore, which no
+/// source identifier can, so they never shadow a helper the body calls (`json_escape_string`,
+/// `bool_to_json`) even when a field is spelled like one.
+fn field_bindings(count: usize) -> Vec<AstIdent> {
+    (0..count)
+        .map(|idx| AstIdent::new(&format!("__field{}", idx)))
+        .collect()
 }
 
 fn concat_parts(parts: Vec<Expr>, attr_ptr: &MySyntaxNodePtr) -> Expr {
